@@ -24,6 +24,27 @@ func init() {
 			}
 		}()
 		switch entry {
+		case "slice-int8", "slice-uint8":
+			// bs = 4-byte big-endian length argument + the reader's content; the target slice holds other content
+			n := int32(uint32(bs[0])<<24 | uint32(bs[1])<<16 | uint32(bs[2])<<8 | uint32(bs[3]))
+			r := codec.NewReader(append([]byte(nil), bs[4:]...))
+			var got []byte
+			var err error
+			if entry == "slice-int8" {
+				t := []int8{-7, 7, -7, 7, -7}
+				err = r.ReadSliceInt8(&t, n, true)
+				for _, x := range t {
+					got = append(got, byte(x))
+				}
+			} else {
+				t := []uint8{7, 249, 7, 249, 7}
+				err = r.ReadSliceUint8(&t, n, true)
+				got = append(got, t...)
+			}
+			if err != nil {
+				return "SlErr", err.Error()
+			}
+			return fmt.Sprintf("(SlVal %s %d)", hx(got), r.VerifRemaining()), ""
 		case "tup":
 			u := tup.NewUniAttribute()
 			if err := u.Decode(codec.NewReader(bs)); err != nil {
